@@ -860,3 +860,65 @@ fn c23_lw() {
     }
     core::mem::forget(vm);
 }
+
+// ---------------------------------------------------------------------------------------------
+// C22: 128-bit wide-integer instructions on a 48-byte stack (three 16-byte slots, symbolic contents)
+// ---------------------------------------------------------------------------------------------
+pub const WSTK: u64 = 48;
+pub fn vm_wide() -> (Vm, [Word; 64], [u8; 48]) {
+    let mut vm = new_vm();
+    let init: [u8; 48] = kani::any();
+    vm.memory.grow_stack(WSTK).unwrap();
+    vm.memory.write_bytes_noownerchecks(0u64, init).unwrap();
+    let mut r: [Word; 64] = kani::any();
+    kani::assume(r[R_ZERO] == 0 && r[R_ONE] == 1 && r[R_FLAG] < 4 && r[R_CGAS] <= r[R_GGAS]);
+    kani::assume(r[R_PC] <= VM_MAX_RAM && r[R_PC] % 4 == 0 && r[R_IS] <= r[R_PC]);
+    kani::assume(r[R_FP] <= r[R_SSP] && r[R_SSP] <= r[R_SP] && r[R_SP] <= WSTK);
+    r[R_HP] = VM_MAX_RAM;
+    vm.registers = r;
+    (vm, r, init)
+}
+fn be128(init: &[u8; 48], a: u64) -> u128 {
+    let mut v: u128 = 0;
+    let mut k = 0;
+    while k < 16 { v = (v << 8) | init[(a + k) as usize] as u128; k += 1; }
+    v
+}
+fn readable16(a: u64) -> bool { a <= WSTK - 16 }
+
+//@ props=C22,C29:thorough tier=quick class=bounded(stack=48) timeout=2400 -- WDCM: all 64 immediates (7 modes x direct/indirect, invalid => InvalidImmediateValue), left operand big-endian from memory, right operand from memory or the register, result in $rA, $of = $err = 0, memory unchanged, reserved destination refused
+#[kani::proof]
+#[kani::unwind(70)]
+#[kani::stub(crate::constraints::reg_key::split_registers, split_registers_stub)]
+fn c22_wdcm() {
+    let (mut vm, pre, init) = vm_wide();
+    let (ra, rb, rc, imm) = (any_reg(), any_reg(), any_reg(), any_imm06());
+    let mid = after_gas(&pre, COST_wdcm);
+    let res = op::WDCM::new(ra, rb, rc, imm).execute(&mut vm);
+    let bits = imm.to_u8();
+    let (mode, reserved, indirect) = (bits & 7, (bits >> 3) & 3, (bits >> 5) & 1 == 1);
+    let post = &vm.registers;
+    let (b, c) = (mid[ri(rb)], mid[ri(rc)]);
+    if COST_wdcm > pre[R_CGAS] { assert!(panic_of(&res) == Some(PanicReason::OutOfGas)); }
+    else if reserved != 0 || mode > 6 {
+        assert!(panic_of(&res) == Some(PanicReason::InvalidImmediateValue), "C22 invalid compare immediate");
+        assert!(unchanged_except(&pre, post, &[R_CGAS, R_GGAS]));
+    } else if ri(ra) < 16 {
+        assert!(panic_of(&res) == Some(PanicReason::ReservedRegisterNotWritable), "C22 reserved destination");
+    } else if !readable16(b) || (indirect && !readable16(c)) {
+        assert!(matches!(panic_of(&res), Some(PanicReason::MemoryOverflow) | Some(PanicReason::UninitalizedMemoryAccess)), "C22 unreadable operand panics with a memory reason");
+        assert!(unchanged_except(&pre, post, &[R_CGAS, R_GGAS]));
+    } else {
+        let l = be128(&init, b);
+        let r = if indirect { be128(&init, c) } else { c as u128 };
+        let want: Word = match mode { 0 => (l == r) as Word, 1 => (l != r) as Word, 2 => (l < r) as Word, 3 => (l > r) as Word,
+                                      4 => (l <= r) as Word, 5 => (l >= r) as Word, _ => l.leading_zeros() as Word };
+        assert!(matches!(res, Ok(ExecuteState::Proceed)), "C22 WDCM succeeds");
+        assert!(post[ri(ra)] == want, "C22 WDCM result: operands read big-endian, compared as 128-bit integers");
+        assert!(post[R_OF] == 0 && post[R_ERR] == 0 && post[R_PC] == pre[R_PC] + 4, "C22 $of, $err cleared; pc + 4");
+        assert!(unchanged_except(&pre, post, &[ri(ra), R_OF, R_ERR, R_PC, R_CGAS, R_GGAS]));
+    }
+    let mut k = 0;
+    while k < 48 { assert!(vm.memory.read_bytes::<_, 1>(k as u64).unwrap()[0] == init[k], "C22 compare never writes memory"); k += 1; }
+    core::mem::forget(vm);
+}
